@@ -171,6 +171,9 @@ def contains(ctx, fr, container, x):
         return NS.typ_has(ctx, container, x)
     if isinstance(container, NS.NSNameDict):
         return NS.name_has(ctx, container, x)
+    from vf.e1.vals import SGen as _SGen
+    if isinstance(container, _SGen):
+        container = as_slist(ctx, fr, container)
     if isinstance(container, SList):
         return OR(*[AND(present(container, k), obj_eq(ctx, fr, container.el[k], x))
                     for k in range(container.cap)])
@@ -399,6 +402,9 @@ def aug_binop(ctx, fr, op, cur, v):
 # ------------------------------------------------------------------------------------------------
 # sequences
 def as_slist(ctx, fr, v):
+    from vf.e1.vals import SGen
+    if isinstance(v, SGen):
+        return iter_values(ctx, fr, v, True)
     if isinstance(v, SList):
         return v
     if isinstance(v, (list, tuple)):
@@ -412,6 +418,15 @@ def as_slist(ctx, fr, v):
 
 def iter_values(ctx, fr, v, want_slist=False):
     """iteration order of `for x in v` as an SList (or python list of concrete items)"""
+    from vf.e1.vals import SGen
+    if isinstance(v, SGen):
+        # one-shot: what a second pass sees is what the first pass left (nothing, modelling a full pass)
+        sl = v.sl
+        already = v.consumed
+        v.consumed = OR(v.consumed, live(ctx, fr))
+        if already is False:
+            return sl
+        return SList(sl.len, sl.el, None, sl.is_set, [AND(present(sl, k), NOT(already)) for k in range(sl.cap)])
     if isinstance(v, SList):
         return v
     if isinstance(v, (list, tuple)):
